@@ -51,6 +51,39 @@ func c01Baselines() []*c01base {
 	return out
 }
 
+// c01FillBaselines are honest quotes whose free header / TD body / QE report fields are all zero and all 0xFF:
+// a signed message that leaves a field out (zero in its place) is only exposed by a quote whose genuine
+// value of that field is zero.
+func c01FillBaselines() []*c01base {
+	var out []*c01base
+	for _, v := range []byte{0x00, 0xff} {
+		w := world.Honest("T")
+		p := w.Spec.Parts()
+		set := func(b []byte) {
+			for i := range b {
+				b[i] = v
+			}
+		}
+		set(p.Header[8:48])
+		set(p.Body)
+		for _, f := range world.QEReportFields {
+			if f.Name != "report_data" {
+				set(p.QEReport[f.Off : f.Off+f.Len])
+			}
+		}
+		p.SignBody(world.NewKey("att"))
+		p.SignQE(w.PKI.LeafKey)
+		w.Parts = p
+		raw, reg := p.Bytes()
+		rp, err := ref.ParseQuote(raw)
+		if err != nil || !ref.LinksOf(rp).All() {
+			panic(fmt.Sprintf("harness: filled baseline is not honest: %v", err))
+		}
+		out = append(out, &c01base{name: fmt.Sprintf("fields-%02x", v), w: w, raw: raw, reg: reg, p: rp})
+	}
+	return out
+}
+
 // protectedRegion names the protected region containing byte off, or "".
 func (b *c01base) protectedRegion(off int) string {
 	switch {
@@ -162,6 +195,13 @@ func runC01(r *mc.Run) {
 		}
 	} else {
 		passes = []pass{{bases[0], world.L0, true}, {bases[0], world.L2, false}, {bases[1], world.L0, false}}
+	}
+	for _, fb := range c01FillBaselines() {
+		if err := fb.w.Verify(world.L0); err != nil {
+			baseOK = false
+			r.Set("baseline_accepted", baseOK)
+		}
+		passes = append(passes, pass{fb, world.L0, false})
 	}
 	for _, ps := range passes {
 		b, l := ps.b, ps.level
